@@ -2,7 +2,17 @@
 
 package fdo
 
-import "github.com/fido-device-onboard/go-fdo/internal/verif"
+import (
+	"crypto/hmac"
+	"crypto/sha256"
+	"crypto/sha512"
+	"hash"
+
+	"github.com/fido-device-onboard/go-fdo/internal/verif"
+)
+
+func vHmac256(secret []byte) hash.Hash { return hmac.New(sha256.New, secret) }
+func vHmac384(secret []byte) hash.Hash { return hmac.New(sha512.New384, secret) }
 
 // vRun runs f. With nopanic the harness is in NoPanic mode and a panic of f is a
 // violation (C10); otherwise the panic is caught and reported as "not accepted".
